@@ -6,7 +6,7 @@ import json, subprocess
 T = "Trusted: the API-server double (simapi), the kubelet/scheduler/GC model, the reference oracles (DESIGN.md section 3), the clock pass on the build copy; "
 CHECKS = {
  "C01": ("exploration", "runtime monitors over invocation records (simulated API server, real reconcilers) + differential oracle on FilterAndMapPodsByNode",
-   "Seeded hostile histories (duplicate pods by hand, Failed/Unknown/terminating/unscheduled pods, node taint/relabel/removal, canaries) in arbitrary fair reconcile orders; every pod create/delete of every replica-set sync is judged against the cluster state that sync read (eligibility, node free, once per node, duplicate resolution, ineligible clean-up, Unknown untouched); plus 20k generated layouts through the real FilterAndMapPodsByNode and a CheckNodeFitness differential. Held = no rule fired on the invocations observed, antecedent floors reached.",
+   "Seeded hostile histories (duplicate pods by hand, Failed/Unknown/terminating/unscheduled pods, node taint/relabel/removal, canaries) in arbitrary fair reconcile orders; every pod create/delete of every replica-set sync is judged against the cluster state that sync read (eligibility, node free, once per node, duplicate resolution, ineligible clean-up, Unknown untouched); plus 20k generated layouts through the real FilterAndMapPodsByNode and a CheckNodeFitness differential. Held = no rule fired on the invocations observed, antecedent floors reached (every simulator engine also floors replica-set status writes and pod creates, so a run in which the controllers could not work is inconclusive).",
    T+"interleavings are sampled (schedule S = atomic reconciles in seeded fair orders, schedule N = reconciles of other controllers nested at the API calls of a running one), not enumerated; the thorough tier runs the same workload in a -race build.", "4/C01"),
  "C02": ("exploration", "bounded-progress monitor: convergence phase after generated histories, fixpoint predicate checked at quiescence",
    "Liveness restated as bounded progress: after a seeded hostile history (template edits, holds, node churn, misbehaving kubelet, partial rollouts, old-DaemonSet start state) the actors stop, the cooperative kubelet runs and a fixpoint (one Ready live-template pod per eligible node, nothing else, no further pod/RS writes for three rounds) must be reached within 12+4*N*(1+edits) rounds (canary wait durations are fast-forwarded, Failed-pod back-off emptied by a controller restart: waiting is not progress). A second engine (schedule E) replaces the round-robin by the repository's own watch handlers and a recording work queue: after one initial enqueue only watch events, requeues and error retries trigger reconciles, and the fixpoint must be reached by a virtual deadline.",
@@ -20,7 +20,7 @@ CHECKS = {
  "C05": ("exploration", "exhaustive lattice (12960 prepared stores, one real EDS Reconcile each at an exact virtual instant) + promotion monitor on every EDS reconcile of the simulator",
    "The full product of the quantifier (strategy x age vs duration x noRestartsDuration x last restart x pause source x unpause x canary-valid x failed x active present) is enumerated; a switch of status.activeReplicaSet is judged against promotionAllowed (must / must-not / either at the stated equalities).",
    T+"the equality points (age = duration, since-restart = noRestartsDuration) are not judged.", "4/C05"),
- "C06": ("exploration", "differential oracle (canaryVerdict) over the real manageCanaryStatus via verif shim; second call for stickiness; failed-canary-creates-nothing monitor on real canary syncs of the simulator",
+ "C06": ("exploration", "differential oracle (canaryVerdict) over the real manageCanaryStatus via verif shim; second call for stickiness; failed-canary-creates-nothing monitor on real canary syncs of the simulator; store-level stickiness monitor (no write ever takes Canary-Failed away from a replica set that is still the canary) under atomic and nested schedules",
    "200k (quick) / 2.4M (thorough) seeded canary situations, boundary-complete per dimension (restart counts at/around both thresholds, all 11 cannot-start reasons, ContainerCreating, unrelated reasons, start age before/at/after maxSlowStartDuration, spans and ages at/around their limits, enabled flags, previous conditions, annotations).",
    T+"Paused is don't-care once failed ('otherwise' in the statement).", "4/C06"),
  "C07": ("exploration", "runtime monitors on EDS reconciles that read a Canary-Failed replica set + rollback fixpoint and retention phase; fault points are covered by C11's failure-and-rollback scenario",
@@ -51,7 +51,7 @@ CHECKS = {
    "9.6k (quick) / 96k (thorough) seeded node populations x replicas (int, percent) x selector x anti-affinity keys x previous lists; distinct, valid, stable, count max/min, error only when too few valid nodes, least-restarts preference, spreading.",
    T+"one open known finding (stale canary nodes) is listed in known_findings.json.", "4/C15"),
  "C16": ("exploration", "exhaustive product lattices through Default/IsDefaulted/Validate + seeded specs driven through all reconcilers; worker-process crash attribution; both tiers replay the committed fuzz corpus (444 coverage-increasing inputs); thorough tier adds Go native coverage-guided fuzzing of a byte-encoded strategy under the same oracles",
-   "127k lattice points (full product of the canary key fields and of the rolling-update fields) and 600 (quick) / 6000 (thorough) life-cycle scenarios (deploy, template change, canary, promotion) with hostile specs; any panic, non-idempotence, lost user value or accepted-but-must-reject spec is a violation.",
+   "127k lattice points (full product of the canary key fields and of the rolling-update fields) and 600 (quick) / 6000 (thorough) life-cycle scenarios (deploy, template change, canary, promotion) with hostile specs; any panic, non-idempotence, lost user value or accepted-but-must-reject spec is a violation. Simulator engines (atomic and nested schedules) add histories in which the user rewrites the strategy while rollouts and canaries run (canary block removed or added, original undefaulted manifest re-applied): any reconcile panic is a violation.",
    T+"the fuzzing engine (thorough tier, 400000 executions) uses the Go fuzzer's own unseedable random source, so that part is not a function of VERIF_SEED; a failing input is stored in the replay file.", "4/C16"),
  "C17": ("exploration", "Go race detector (-race build, halt_on_error=0, report blocks counted and de-duplicated) + conservation-of-errors monitor with unique error ids + condition reflection on real syncs",
    "Helper batches 2..64 x failure plans with jitter at the client seam; real replica-set syncs (active and canary role) with failing pod calls; the four reconcilers, kubelet and user concurrently on one store with 0/10/100% failing pod calls.",
@@ -59,11 +59,11 @@ CHECKS = {
  "C18": ("exploration", "differential oracle over the real setting reconciler in every reconcile order of each population + observation of the settings a replica-set sync attaches; at fixpoints of simulated histories with settings: at most one valid setting per node, none valid without a reference, created pods only influenced by valid settings",
    "1.5k (quick) / 12k (thorough) populations of <=4 settings x <=4 nodes, all <=24 orders, two passes: mutual exclusion, malformed in error with text, lone well-formed valid, only valid settings influence created pods.",
    T+"settings of other namespaces never conflict.", "4/C18"),
- "C19": ("exploration", "whole-store diff monitor around the real kubectl-eds command bodies on every reachable state + interpretation by following reconciles",
+ "C19": ("exploration", "whole-store diff monitor around the real kubectl-eds command bodies on every reachable state + interpretation by following reconciles; command-heavy simulated histories with commands landing inside running reconciles (nested schedule): a successful canary fail is never lost",
    "Eight reachable states x command sequences of length <=3 (all 584 per state in thorough) x optional template edit: documented change only, refusal without change when the precondition fails, pause -> Canary Paused, unpause -> Canary, validate promotes exactly the then-canary RS, fail -> rollback.",
    T+"commands run through their run() bodies with an injected client (kubeconfig handling is not exercised).", "4/C19"),
  "C20": ("exploration", "differential oracle over every metric family generator (verif shim) and BuildInfoLabels",
-   "12k (quick) / 120k (thorough) seeded objects: every gauge equals its status field; the label-info series equals the multiset {(sanitise(key), value)} incl. dotted/slashed/dashed, colliding and empty maps; as in the metrics store, all families of an object are generated before any series is judged, and the series are judged again after the families of another object were generated.",
+   "12k (quick) / 120k (thorough) seeded objects: every gauge equals its status field; objects carry UID and generation and are relabelled between two generations; the label-info series equals the multiset {(sanitise(key), value)} incl. dotted/slashed/dashed, colliding and empty maps; as in the metrics store, all families of an object are generated before any series is judged, and the series are judged again after the families of another object were generated.",
    T+"the sanitising rule is re-stated as [^a-zA-Z0-9_] -> _.", "4/C20"),
 }
 PENDING = {}
